@@ -48,7 +48,7 @@ TStep ==
                [] e.op = "clear" -> data' = <<>> /\ dir' = dir
                [] e.op = "sort" -> data' = data /\ dir' = dir /\ SortedPerm(e.dir, e.vs, e.out)
                [] OTHER -> FALSE
-         /\ (e.op # "sort" => e.arr = data')
+         /\ (e.op # "sort" /\ e.blind = 0 => e.arr = data')
 
 TSkip ==
   /\ l <= N
